@@ -182,6 +182,26 @@ def check_occluders(ctx, R="C17.occluders"):
         ctx.ok(R, dist[0], "targets farther than visibleDistance are not visible (object and point branches)")
     else:
         ctx.finding(R, fn, "visible distance exits", "canSee no longer returns False for targets beyond visibleDistance in both branches")
+    # every hit on the target that becomes a candidate ray lies within the visible distance
+    stores = [n for n in walk_local(fn) if isinstance(n, ast.Assign) and isinstance(n.targets[0], ast.Subscript) and unparse(n.targets[0].value) in tmaps]
+    for st_ in stores:
+        d = unparse(st_.value)
+        within = False
+        for t, pol in lib.path_conditions(st_, fn):
+            cp = lib.cmp_parts(t)
+            if cp is None:
+                continue
+            l_, op_, r_ = cp
+            if (l_, r_) == ("visibleDistance", d) and op_ in (ast.Lt, ast.LtE) and not pol:
+                within = True  # not (visibleDistance < d)
+            if (l_, r_) == (d, "visibleDistance") and op_ in (ast.Lt, ast.LtE) and pol:
+                within = True
+        if within:
+            ctx.ok(R, st_, f"a hit on the target counts only when `{d} <= visibleDistance`")
+        else:
+            ctx.finding(R, st_, "target hits beyond the visible distance are kept", f"canSee records `{unparse(st_)}` for every ray that hits the target, without requiring `{d} <= visibleDistance`: a target whose only part inside the view angles lies beyond the visible distance is reported visible")
+    if not stores:
+        raise AnalysisError("shape not recognised: canSee no longer fills the target distance map")
     az = lib.locals_assigned(fn, lambda v: "arctan2" in unparse(v))
     al = lib.locals_assigned(fn, lambda v: "arcsin" in unparse(v))
     cone = [r for r in rets if any("viewAngles[0] / 2" in unparse(t) and any(a in lib.names_loaded(t) for a in az) for t, p in lib.guard_tests(r, fn))]
